@@ -24,13 +24,16 @@ package c11
 
 import (
 	"bytes"
+	"encoding/hex"
 	"encoding/xml"
 	"fmt"
 	"go/ast"
 	"go/parser"
 	"go/token"
+	"go/types"
 	"net"
 	"path/filepath"
+	"sort"
 	"strconv"
 	"strings"
 	"unicode/utf8"
@@ -301,6 +304,10 @@ func (c *ctx) xmlRoundTrip(j jid.JID, lines []string) {
 	case err2 != nil || !e2.J.Equal(j):
 		c.fail("xml-roundtrip", "element", lines, "element encoding of %q decodes to %q (%v)", s, e2.J.String(), err2)
 	}
+	c.marshalTokens(j)
+	if len(c.seen)%4 == 0 || len(s) < 8 {
+		c.elemVariants(s, lines)
+	}
 	// the decoding step on the token level, for the model
 	for _, op := range []string{"unattr", "unelem"} {
 		old := jid.MustParse("z")
@@ -315,6 +322,116 @@ func (c *ctx) xmlRoundTrip(j jid.JID, lines []string) {
 			}
 		}
 		c.r.Line(op+" "+common.HexS(s)+" "+c.splitOracles(s), enc(old)+" "+common.B(err == nil))
+	}
+}
+
+// tokensOf tokenises an XML document with the real decoder.
+func tokensOf(doc string) ([]xml.Token, error) {
+	d := xml.NewDecoder(strings.NewReader(doc))
+	var out []xml.Token
+	for {
+		t, err := d.Token()
+		if err != nil {
+			if err.Error() == "EOF" {
+				return out, nil
+			}
+			return out, err
+		}
+		out = append(out, xml.CopyToken(t))
+	}
+}
+
+// marshalTokens: what MarshalXML / MarshalXMLAttr write, re-read with the real decoder.
+func (c *ctx) marshalTokens(j jid.JID) {
+	e := enc(j)
+	b, err := xml.Marshal(elemHolder{J: j})
+	if err == nil {
+		if toks, err := tokensOf(string(b)); err == nil && len(toks) >= 2 {
+			c.r.Line("melem "+e, common.EncToks(toks[1:len(toks)-1]))
+		}
+	}
+	if a, err := j.MarshalXMLAttr(xml.Name{Local: "j"}); err == nil {
+		c.r.Line("mattr "+e, common.HexS(a.Value))
+	}
+}
+
+// elemVariants decodes the element <j>…</j> with the text written in different ways
+// (white space around it, comments, CDATA sections, a child element, nothing at all):
+// UnmarshalXML parses exactly the character data that stands directly in the element.
+func (c *ctx) elemVariants(s string, lines []string) {
+	k := len(s) / 2
+	for k > 0 && k < len(s) && !utf8.RuneStart(s[k]) {
+		k--
+	}
+	cd := func(x string) string { return "<![CDATA[" + strings.ReplaceAll(x, "]]>", "]]]]><![CDATA[>") + "]]>" }
+	for _, v := range []string{
+		escText(s), " " + escText(s), escText(s) + "\n", "\n  " + escText(s) + "\n", "\t" + escText(s),
+		"<!--c-->" + escText(s), escText(s[:k]) + "<!-- c -->" + escText(s[k:]), cd(s[:k]) + escText(s[k:]), cd(s),
+		escText(s) + "<x>junk</x>", "<x>" + escText(s) + "</x>", escText(s[:k]) + "<x/>" + escText(s[k:]), "", " ", "<!--" + strings.ReplaceAll(escText(s), "--", "") + "-->",
+	} {
+		doc := "<j>" + v + "</j>"
+		toks, err := tokensOf(doc)
+		if err != nil || len(toks) < 2 {
+			continue
+		}
+		inner := toks[1 : len(toks)-1]
+		text, depth := "", 0
+		for _, t := range inner {
+			switch t := t.(type) {
+			case xml.StartElement:
+				depth++
+			case xml.EndElement:
+				depth--
+			case xml.CharData:
+				if depth == 0 {
+					text += string(t)
+				}
+			}
+		}
+		old := jid.MustParse("z")
+		var uerr error
+		p := guard(func() {
+			d := xml.NewDecoder(strings.NewReader(doc))
+			tok, _ := d.Token()
+			if st, ok := tok.(xml.StartElement); ok {
+				uerr = (&old).UnmarshalXML(d, st)
+			}
+		})
+		line := "unelemtoks " + common.EncToks(inner) + " " + c.splitOracles(text)
+		if p != "" {
+			c.r.Line(line, "PANIC")
+			c.fail("total", "unmarshal-xml", append(append([]string(nil), lines...), c.r.Prop+" "+line), "UnmarshalXML of %q panicked: %s", doc, p)
+			continue
+		}
+		c.r.Line(line, enc(old)+" "+common.B(uerr == nil))
+		// property oracle: the element decodes to what Parse makes of exactly its character data
+		want, werr := jid.Parse(text)
+		if werr != nil {
+			want = jid.MustParse("z")
+		}
+		if (uerr == nil) != (werr == nil) || !old.Equal(want) {
+			c.fail("xml-roundtrip", "element-chardata", append(append([]string(nil), lines...), c.r.Prop+" "+line), "UnmarshalXML of %q gives %q (%v); Parse of its character data %q gives %q (%v)", doc, old.String(), uerr, text, want.String(), werr)
+		}
+	}
+}
+
+// zeroJID: the encodings of the zero value JID{}.
+func (c *ctx) zeroJID() {
+	var z jid.JID
+	// hypothesis of C11_zero_jid_xml: ToUnicode("") = ""
+	if out, err := toUnicode(""); err != nil || len(out) != 0 {
+		c.r.Hist["hypothesis-fails:idna-empty"]++
+		c.r.Notes = append(c.r.Notes, "hypothesis idna-empty fails: ToUnicode(\"\") is not the empty string")
+	}
+	c.marshalTokens(z)
+	c.elemVariants("", []string{c.r.Prop + " melem - 0 0"})
+	var a attrHolder
+	b, err := xml.Marshal(attrHolder{})
+	if err == nil {
+		err = xml.Unmarshal(b, &a)
+	}
+	if err != nil || !a.J.Equal(z) {
+		c.fail("xml-roundtrip", "zero-attr", []string{c.r.Prop + " mattr - 0 0"}, "the zero JID does not survive the attribute encoding: %q (%v)", a.J.String(), err)
 	}
 }
 
@@ -587,6 +704,16 @@ func (c *ctx) triple(l, d, res string, class string) {
 	}
 }
 
+func (c *ctx) eqPair(a, b jid.JID) {
+	r := c.r
+	eq := a.Equal(b)
+	r.Line("eq "+enc(a)+" "+enc(b), common.B(eq))
+	same := a.Localpart() == b.Localpart() && a.Domainpart() == b.Domainpart() && a.Resourcepart() == b.Resourcepart()
+	if eq != same || eq != b.Equal(a) {
+		c.fail("accessors-agree", "equal", []string{r.Prop + " eq " + enc(a) + " " + enc(b)}, "Equal(%q,%q) = %v, parts equal = %v", a.String(), b.String(), eq, same)
+	}
+}
+
 func (c *ctx) equalPairs() {
 	r := c.r
 	for i := 0; i < len(c.pool); i++ {
@@ -607,12 +734,7 @@ func (c *ctx) equalPairs() {
 					b = jid.NewUnsafe(l+d, res, "").JID
 				}
 			}
-			eq := a.Equal(b)
-			r.Line("eq "+enc(a)+" "+enc(b), common.B(eq))
-			same := a.Localpart() == b.Localpart() && a.Domainpart() == b.Domainpart() && a.Resourcepart() == b.Resourcepart()
-			if eq != same || eq != b.Equal(a) {
-				c.fail("accessors-agree", "equal", []string{r.Prop + " eq " + enc(a) + " " + enc(b)}, "Equal(%q,%q) = %v, parts equal = %v", a.String(), b.String(), eq, same)
-			}
+			c.eqPair(a, b)
 		}
 	}
 }
@@ -625,7 +747,7 @@ var locals = []string{"", "a", "A", "user", "USER", "ｕｓｅｒ", "ß", "ẞ",
 	"\xff", "a\xc0\x80", "\xed\xa0\x80", "\x00", "a\x7f", "K", "ẞ", "ǆ", "Ǆ", "ΐ", "ΰ", "ŉ", "ᾼ", "ϓ", "ẛ̣", "ḍ̇", "q̣̇", "Å", "Å", "㎒", "①", "Ⅸ", "ⅸ",
 	strings.Repeat("a", 1023), strings.Repeat("a", 1024), strings.Repeat("é", 511), strings.Repeat("é", 512), strings.Repeat("ẞ", 341), strings.Repeat("ẞ", 342), strings.Repeat("ǰ", 400)}
 
-var domains = []string{"\u2135a", "\u2136.com", "a\u2137", "\u2138z.example", "", "a", "b", "example.net", "EXAMPLE.NET", "example.net.", "example.net..", "example.net...", ".", "..", "a.", "a..", ".a", "a..b",
+var domains = []string{"[fe80::1%a/b]", "[fe80::1%a@b]", "[::1%/]", "[fe80::1%25eth0]", "fe80::1%eth0", "\u2135a", "\u2136.com", "a\u2137", "\u2138z.example", "", "a", "b", "example.net", "EXAMPLE.NET", "example.net.", "example.net..", "example.net...", ".", "..", "a.", "a..", ".a", "a..b",
 	"example。net", "example.net。", "example.net．", "example.net｡", "a｡", "。", "a.。", "a｡.", "ｅｘａｍｐｌｅ.net", "ex­ample.net",
 	"xn--nxasmq6b", "xn--nxasmq6b.", "XN--NXASMQ6B", "xn--bcher-kva.example", "bücher.example", "BÜCHER.example", "bücher.example", "xn--", "xn--.com", "xn--a", "xn--a.com", "xn--fa-hia.de", "faß.de", "FASS.de", "fass.de",
 	"straße.de", "STRASSE.de", "βόλος.com", "βόλοσ.com", "ΒΌΛΟΣ.com", "日本.jp", "日本。jp", "שלום.il", "aא.il", "אa.il", "1א.il", "a‌b.com", "a‍b.com", "न्‍.com",
@@ -717,6 +839,63 @@ func Run(r *common.Run) error {
 				if len(f) >= 5 {
 					c.triple(un(f[2]), un(f[3]), un(f[4]), "replay")
 				}
+			case "melem", "mattr":
+				if len(f) >= 5 {
+					data := un(f[2])
+					ll, _ := strconv.Atoi(f[3])
+					dl, _ := strconv.Atoi(f[4])
+					if ll+dl <= len(data) {
+						if len(data) == 0 {
+							c.zeroJID()
+						} else {
+							c.triple(data[:ll], data[ll:ll+dl], data[ll+dl:], "replay")
+						}
+					}
+				}
+			case "unelemtoks":
+				// the character data of the tokens, re-run through every way of writing it
+				text := ""
+				depth := 0
+				for _, t := range strings.Split(f[2], ";") {
+					p := strings.Split(t, ":")
+					switch p[0] {
+					case "S":
+						depth++
+					case "E":
+						depth--
+					case "C":
+						if depth == 0 && len(p) > 1 {
+							b, _ := hex.DecodeString(p[1])
+							text += string(b)
+						}
+					}
+				}
+				c.elemVariants(text, nil)
+				c.str(strings.TrimSpace(text), "replay")
+			case "seq":
+				ops, err := decodeSeq(f[2])
+				if err != nil {
+					return err
+				}
+				c.runSeq(ops, "replay")
+			case "eq":
+				if len(f) >= 8 {
+					mk := func(data, ll, dl string) (jid.JID, bool) {
+						d := un(data)
+						a, _ := strconv.Atoi(ll)
+						b, _ := strconv.Atoi(dl)
+						if a+b > len(d) {
+							return jid.JID{}, false
+						}
+						return jid.NewUnsafe(d[:a], d[a:a+b], d[a+b:]).JID, true
+					}
+					a, ok1 := mk(f[2], f[3], f[4])
+					b, ok2 := mk(f[5], f[6], f[7])
+					if ok1 && ok2 {
+						c.pool = []jid.JID{a, b}
+						c.eqPair(a, b)
+					}
+				}
 			case "withl", "withd", "withr", "str", "parts":
 				if len(f) >= 5 {
 					data := un(f[2])
@@ -749,9 +928,13 @@ func Run(r *common.Run) error {
 	for _, s := range []string{"\u2137z", "\u2136Z\u04ea", "a@\u2135b/r", "example.com..", "a..", "..", "a@b｡", "a@example.net。/r", "a@b．.", "example.net.", "a@b/c", "a/b@c", "a@b@c", "@b", "a@", "a@b/", "/", "@", ""} {
 		c.str(s, "corpus")
 	}
-	for _, t := range [][3]string{{"", "example.com..", ""}, {"a", "b｡", "r"}, {"a", "b", "r"}, {"", "b", ""}, {"A", "B.", "R"}, {"a@", "b", ""}, {"", "[::1]", "r"}} {
+	for _, t := range [][3]string{{"", "[fe80::1%a/b]", ""}, {"a", "[fe80::1%x@y]", "r"}, {"", "example.com..", ""}, {"a", "b｡", "r"}, {"a", "b", "r"}, {"", "b", ""}, {"A", "B.", "R"}, {"a@", "b", ""}, {"", "[::1]", "r"}} {
 		c.triple(t[0], t[1], t[2], "corpus")
 	}
+
+	// operation sequences on live values (clause immutable)
+	c.sequences()
+	c.zeroJID()
 
 	// exhaustive: every string up to length L over {a @ / .}
 	maxLen := r.Pick(6, 8)
@@ -898,6 +1081,122 @@ func Facts(repo string) (string, error) {
 			fmt.Fprintf(&sb, "/-- comparisons with integer literals in `%s`, in source order -/\ndef %sLimits : Option (List String) := some %s\n", fn, fn, strList(l))
 		}
 	}
+	// every function of jid.go / unsafe.go that writes through append, copy or a
+	// transformer's Append does so into a slice it made itself (syntactic, conservative)
+	type fw struct {
+		name  string
+		fresh bool
+	}
+	var fws []fw
+	for _, file := range []string{"jid.go", "unsafe.go"} {
+		ff, err := parser.ParseFile(fset, filepath.Join(repo, "jid", file), nil, 0)
+		if err != nil {
+			return "", err
+		}
+		for _, d := range ff.Decls {
+			fd, ok := d.(*ast.FuncDecl)
+			if !ok || fd.Body == nil {
+				continue
+			}
+			if n, fresh := writesOnFresh(fd); n > 0 {
+				fws = append(fws, fw{fd.Name.Name, fresh})
+			}
+		}
+	}
+	sort.Slice(fws, func(a, b int) bool { return fws[a].name < fws[b].name })
+	var el []string
+	for _, w := range fws {
+		el = append(el, fmt.Sprintf("(%s, %v)", strconv.Quote(w.name), w.fresh))
+	}
+	fmt.Fprintf(&sb, "\n/-- for every function of jid.go / unsafe.go that calls append, copy or a transformer's\nAppend: is every destination a local slice that the function only ever assigns from make(…),\nfrom a full slice expression x[a:b:b], or from append/Append on itself? -/\ndef writesOnFresh : Option (List (String × Bool)) := some [%s]\n", strings.Join(el, ", "))
 	sb.WriteString("\nend XmppModel.Generated.C11\n")
 	return sb.String(), nil
+}
+
+// writesOnFresh counts the write sites (append / copy / x.Append with a
+// destination argument) of a function and reports whether every destination is
+// a local identifier all of whose assignments create fresh storage or extend
+// the identifier itself.
+func writesOnFresh(fd *ast.FuncDecl) (sites int, fresh bool) {
+	dest := func(call *ast.CallExpr) (ast.Expr, bool) {
+		switch f := call.Fun.(type) {
+		case *ast.Ident:
+			if (f.Name == "append" || f.Name == "copy") && len(call.Args) >= 1 {
+				return call.Args[0], true
+			}
+		case *ast.SelectorExpr:
+			if f.Sel.Name == "Append" && len(call.Args) >= 2 {
+				return call.Args[0], true
+			}
+		}
+		return nil, false
+	}
+	// classification of the right-hand sides assigned to each local identifier
+	okAssign := map[string]bool{}
+	seenAssign := map[string]bool{}
+	classify := func(name string, rhs ast.Expr) {
+		good := false
+		switch e := rhs.(type) {
+		case *ast.CallExpr:
+			if id, ok := e.Fun.(*ast.Ident); ok && id.Name == "make" {
+				good = true
+			} else if d, ok := dest(e); ok {
+				if id, ok := d.(*ast.Ident); ok && id.Name == name {
+					if f, ok := e.Fun.(*ast.Ident); !ok || f.Name != "copy" {
+						good = true // x = append(x, …) / x, err = t.Append(x, …)
+					}
+				}
+			}
+		case *ast.SliceExpr:
+			// x[a:b:b]: no spare capacity, so a later append cannot write into x's array
+			if e.Slice3 && e.High != nil && e.Max != nil && types.ExprString(e.High) == types.ExprString(e.Max) {
+				good = true
+			}
+		}
+		if !seenAssign[name] {
+			seenAssign[name] = true
+			okAssign[name] = good
+		} else {
+			okAssign[name] = okAssign[name] && good
+		}
+	}
+	ast.Inspect(fd.Body, func(n ast.Node) bool {
+		as, ok := n.(*ast.AssignStmt)
+		if !ok {
+			return true
+		}
+		for k, lhs := range as.Lhs {
+			id, ok := lhs.(*ast.Ident)
+			if !ok || id.Name == "_" {
+				continue
+			}
+			switch {
+			case len(as.Rhs) == len(as.Lhs):
+				classify(id.Name, as.Rhs[k])
+			case len(as.Rhs) == 1 && k == 0:
+				classify(id.Name, as.Rhs[0])
+			case len(as.Rhs) == 1:
+				// other results of a multi-value call (err, …): not slices we track
+			}
+		}
+		return true
+	})
+	fresh = true
+	ast.Inspect(fd.Body, func(n ast.Node) bool {
+		call, ok := n.(*ast.CallExpr)
+		if !ok {
+			return true
+		}
+		d, ok := dest(call)
+		if !ok {
+			return true
+		}
+		sites++
+		id, ok := d.(*ast.Ident)
+		if !ok || !seenAssign[id.Name] || !okAssign[id.Name] {
+			fresh = false
+		}
+		return true
+	})
+	return sites, fresh
 }
